@@ -2,6 +2,8 @@ import Bandit.Blacklist
 import Bandit.Plugins.Shell
 import Bandit.Plugins.Misc
 import Bandit.Plugins.CryptoGen
+import Bandit.Plugins.Trojan
+import Bandit.Gen.Bidi
 /-!
 # Assembling the test set (`BanditTestSet`)
 -/
@@ -12,6 +14,7 @@ open Plugins
 def pluginChecks (pc : PluginCfg) (fileName : Str) : List Check :=
   miscChecks pc fileName ++ shellChecks (ShellCfg.ofCfg (pc.get "shell_injection"))
     ++ cryptoChecks genCryptoTables pc
+    ++ trojanChecks Gen.bidiCharacters
 
 /-- The test set for a filter `keep` on test IDs: plugins whose ID passes, plus the blacklist
 wrapper over the per-ID filtered tables (absent when nothing survives). -/
